@@ -137,7 +137,9 @@ def generic_src(n):
     nid = n['id']
     deps = ', '.join(f'{p}={mark_src(m)}' for p, m in n.get('params', []))
     # build_node registers the class under class_name in the engine's module globals: keep it unique per program
-    args = [n['generic_of'], f'node_name={nid!r}', f'class_name={("Generic" + nid + "_" + n.get("_uniq", ""))!r}']
+    args = [n['generic_of'], f'class_name={("Generic" + nid + "_" + n.get("_uniq", ""))!r}']
+    if not n.get('inherit_name'):
+        args.insert(1, f'node_name={nid!r}')
     if deps:
         args.append(deps)
     return f'{nid} = build_node({", ".join(args)})'
